@@ -1,4 +1,5 @@
 import Aiortc.Lemmas.SctpNoCrashTx
+import Aiortc.Lemmas.Bytes
 /-! # Crash-freedom of the small handlers: sending chunks, channel state, `_transmit`, `_data_channel_flush` -/
 namespace Aiortc.Sctp
 open Aiortc.Gen Aiortc.Sctp.Wire
@@ -54,7 +55,7 @@ theorem getElem?_of_lt {α} {l : List α} {i : Nat} (h : i < l.length) : ∃ c, 
   ⟨l[i], List.getElem?_eq_getElem h⟩
 
 theorem DataFrame.setChan (e : Ep) (i : Nat) (c : Chan) : DataFrame e { e with chans := e.chans.set i c } :=
-  ⟨e.chans.set i c, e.dataChannels, e.dcQueue, e.tx, rfl, by simp⟩
+  ⟨e.chans.set i c, e.dataChannels, e.dcQueue, e.tx, _, _, _, _, rfl, by simp⟩
 
 /-- `_setReadyState`: only the channel object changes. -/
 theorem wp_setReady {A} {i st : Nat} {Q : Unit → St → Prop} {e : Ep} {l : List Out} (h : WF e) (hi : i < e.chans.length)
@@ -113,6 +114,99 @@ theorem wp_sendData {A} {sid ppid : Nat} {data : Bytes} {ordered : Bool} {Q : Un
   intro tx l' hw'
   exact hq tx l' hw'
 
+/-! ## `_transmit_reconfig` (called at the end of `_data_channel_flush`) -/
+
+theorem wp_rcCancel {A} {Q : Unit → St → Prop} {e : Ep} {l : List Out}
+    (hq : ∀ l', Q () ({ e with rcTimer := false }, l')) : wp A rcCancel Q (e, l) := by
+  unfold rcCancel
+  simp only [wp_bind, wp_getE]
+  split
+  · simp only [wp_bind, wp_emit, wp_modE]; exact hq _
+  · rename_i hf
+    simp only [wp_pure]
+    have := hq l
+    have he : ({ e with rcTimer := false } : Ep) = e := by cases e; simp_all
+    rwa [he] at this
+
+theorem wp_rcStart {A} {Q : Unit → St → Prop} {e : Ep} {l : List Out}
+    (hq : ∀ l', Q () ({ e with rcTimer := true }, l')) : wp A rcStart Q (e, l) := by
+  unfold rcStart
+  simp only [wp_bind]
+  refine wp_rcCancel ?_
+  intro l'
+  simp only [wp_modE, wp_emit]
+  exact hq _
+
+theorem encodeParams_single (t : Nat) (v : Bytes) : (encodeParams [(t, v)]).length = v.length + 4 := by
+  simp [encodeParams, encodeParamsAux, u16be]
+
+theorem reconfigChunk_inRange {t : Nat} {b : Bytes} (ht : t < 65536) (hb : b.length + 8 < 65536) :
+    (Chunk.params .reconfig 0 [(t, b)]).inRange = true := by
+  simp only [Chunk.inRange, paramsInRange, List.all_cons, List.all_nil, encodeParams_single, Bool.and_true,
+    Bool.and_eq_true, decide_eq_true_eq]
+  omega
+
+theorem length_u16sBytes (l : List Nat) : (u16sBytes l).length = 2 * l.length := by
+  induction l with
+  | nil => rfl
+  | cons a l ih => simp [u16sBytes, List.flatMap_cons] at ih ⊢; omega
+
+theorem tsn_minus_one_range (a : Int) : InRange32 (tsn_minus_one a) := by
+  unfold tsn_minus_one InRange32; omega
+
+theorem tsn_plus_one_range (a : Int) : InRange32 (tsn_plus_one a) := by
+  unfold tsn_plus_one InRange32; omega
+
+/-- `_transmit_reconfig()`: only the stream reset bookkeeping changes. -/
+theorem wp_transmitReconfig {A} {Q : Unit → St → Prop} {e : Ep} {l : List Out} (h : WF e)
+    (hq : ∀ e' l', WF e' → DataFrame e e' → Q () (e', l')) :
+    wp A transmitReconfig Q (e, l) := by
+  unfold transmitReconfig
+  simp only [wp_bind, wp_getE]
+  split
+  · generalize hst : ((e.reconfigQueue.filter fun x =>
+        !(e.dcQueue.map fun q => (e.chans[q.1]?).bind (·.id)).contains (some x)).take RECONFIG_MAX_STREAMS) = streams
+    have hsub : ∀ s ∈ streams, s ∈ e.reconfigQueue := by
+      intro s hs; rw [← hst] at hs
+      exact (List.mem_filter.mp (List.mem_of_mem_take hs)).1
+    have hlen : streams.length ≤ 135 := by
+      rw [← hst, List.length_take]; exact Nat.min_le_left _ _
+    split
+    · simp only [wp_pure]; exact hq e l h (DataFrame.refl _)
+    · simp only [wp_bind, wp_setE]
+      obtain ⟨ha0, ha1⟩ := h.rcReq
+      obtain ⟨hb0, hb1⟩ := h.rcResp
+      obtain ⟨hc0, hc1⟩ := tsn_minus_one_range e.tx.localTsn
+      have hstreams : ∀ s ∈ streams, s < 65536 := fun s hs => h.ch.rcq s (hsub s hs)
+      have hser : (RcParam.resetOut e.reconfigRequestSeq.toNat e.reconfigResponseSeq.toNat
+          (tsn_minus_one e.tx.localTsn).toNat streams).serialize =
+          .ok (RcParam.resetOut e.reconfigRequestSeq.toNat e.reconfigResponseSeq.toNat
+            (tsn_minus_one e.tx.localTsn).toNat streams).bytes := by
+        have h1 : e.reconfigRequestSeq.toNat < 4294967296 := by omega
+        have h2 : e.reconfigResponseSeq.toNat < 4294967296 := by omega
+        have h3 : (tsn_minus_one e.tx.localTsn).toNat < 4294967296 := by omega
+        simp only [RcParam.serialize, RcParam.inRange, h1, h2, h3, decide_true, Bool.true_and, List.all_eq_true,
+          decide_eq_true_eq]
+        rw [if_pos]
+        intro s hs; exact hstreams s hs
+      simp only [hser, wp_liftO_ok]
+      have hw1 : WF { e with reconfigQueue := e.reconfigQueue.filter fun x => !streams.contains x
+                             reconfigRequest := some (e.reconfigRequestSeq, e.reconfigResponseSeq,
+                               tsn_minus_one e.tx.localTsn, streams)
+                             reconfigRequestSeq := tsn_plus_one e.reconfigRequestSeq } :=
+        ⟨h.net, ⟨h.ch.dcIdx, h.ch.dcKeys, h.ch.qIdx, h.ch.qId, h.ch.qRel, h.ch.qPpid, h.ch.sid,
+          fun s hs => h.ch.rcq s (List.mem_filter.mp hs).1⟩, h.tx, h.rx, tsn_plus_one_range _, h.rcResp, h.sack⟩
+      refine wp_sendChunk hw1 (reconfigChunk_inRange (by decide) ?_) ?_
+      · simp only [RcParam.bytes, List.length_append, length_u32be, length_u16sBytes]
+        omega
+      · intro d
+        refine wp_rcStart ?_
+        intro l'
+        exact hq _ _ ⟨hw1.net, hw1.ch, hw1.tx, hw1.rx, hw1.rcReq, hw1.rcResp, hw1.sack⟩
+          ⟨_, _, _, _, _, _, _, _, rfl, Nat.le_refl _⟩
+  · simp only [wp_pure]
+    exact hq e l h (DataFrame.refl _)
+
 theorem ChansOk.subQ {chans dcs q q' rcq} (h : ChansOk chans dcs q rcq) (hsub : ∀ x ∈ q', x ∈ q) :
     ChansOk chans dcs q' rcq :=
   ⟨h.dcIdx, h.dcKeys, fun x hx => h.qIdx x (hsub x hx), fun x hx => h.qId x (hsub x hx),
@@ -152,7 +246,7 @@ theorem wp_flushLoop {A} (fuel : Nat) {Q : Unit → St → Prop} {e : Ep} {l : L
           intro tx l' hw2
           refine ih hw2 ?_
           intro e' l'' hw3 hf
-          exact hq e' l'' hw3 (DataFrame.trans ⟨_, _, rest, tx, rfl, Nat.le_refl _⟩ hf)
+          exact hq e' l'' hw3 (DataFrame.trans ⟨_, _, rest, tx, _, _, _, _, rfl, Nat.le_refl _⟩ hf)
         · rename_i hne
           have hrel := (h.ch.qRel _ hmem c hc).resolve_left hne
           simp only [wp_bind, wp_getE, hrel.1, hrel.2, Option.map_none]
@@ -162,7 +256,7 @@ theorem wp_flushLoop {A} (fuel : Nat) {Q : Unit → St → Prop} {e : Ep} {l : L
           intro cs l'' hw3 hlen
           refine ih hw3 ?_
           intro e' l3 hw4 hf
-          exact hq e' l3 hw4 (DataFrame.trans ⟨cs, _, rest, tx, rfl, by simp at hlen; omega⟩ hf)
+          exact hq e' l3 hw4 (DataFrame.trans ⟨cs, _, rest, tx, _, _, _, _, rfl, by simp at hlen; omega⟩ hf)
 
 theorem wp_flush {A} {Q : Unit → St → Prop} {e : Ep} {l : List Out} (h : WF e)
     (hq : ∀ e' l', WF e' → DataFrame e e' → Q () (e', l')) : wp A flush Q (e, l) := by
@@ -170,6 +264,14 @@ theorem wp_flush {A} {Q : Unit → St → Prop} {e : Ep} {l : List Out} (h : WF 
   simp only [wp_bind, wp_getE]
   split
   · simpa using hq e l h (DataFrame.refl _)
-  · exact wp_flushLoop _ h hq
+  · simp only [wp_bind]
+    refine wp_flushLoop _ h ?_
+    intro e1 l1 hw1 hf1
+    simp only [wp_getE]
+    split
+    · refine wp_transmitReconfig hw1 ?_
+      intro e2 l2 hw2 hf2
+      exact hq e2 l2 hw2 (hf1.trans hf2)
+    · simp only [wp_pure]; exact hq e1 l1 hw1 hf1
 
 end Aiortc.Sctp
